@@ -216,6 +216,62 @@ pub fn c15_worker(tier: &str, k: usize, n: usize, ctx: &mut Ctx) {
       }
     }
   }
+  // every single character (quick: U+0000..U+07FF, the general-punctuation block with U+2028/2029,
+  // the borders of the surrogate gap, the last BMP code points and astral samples; thorough: the
+  // whole BMP) in every string field, alone and between two ASCII letters
+  {
+    let mut chars: Vec<char> = Vec::new();
+    if thorough {
+      chars.extend((0u32..=0xffff).filter_map(char::from_u32));
+    } else {
+      chars.extend((0u32..0x800).filter_map(char::from_u32));
+      chars.extend((0x2000u32..0x2070).filter_map(char::from_u32));
+      chars.extend(['\u{d7ff}', '\u{e000}', '\u{feff}', '\u{fffd}', '\u{fffe}', '\u{ffff}']);
+    }
+    chars.extend(['\u{10000}', '\u{1f600}', '\u{10ffff}']);
+    for c in chars {
+      if !st.mine() {
+        continue;
+      }
+      for f in 0..7 {
+        for emb in [false, true] {
+          let sv = if emb { format!("a{c}b") } else { c.to_string() };
+          let mut v = base_val();
+          set_field(&mut v, f, &sv);
+          ctx.states += 1;
+          ctx.count("single_character_sweep_values");
+          c15_value(ctx, &v);
+        }
+      }
+    }
+  }
+  // all short strings over the symbols that matter to an escaper / unescaper next to each other
+  {
+    let syms = ["\"", "\\", "u", "0", "/", "\n", "\u{0}", "é", "😀", "b"];
+    let max = if thorough { 4 } else { 3 };
+    let mut sv = String::new();
+    for len in 2..=max {
+      let total = syms.len().pow(len as u32);
+      for idx in 0..total {
+        if !st.mine() {
+          continue;
+        }
+        sv.clear();
+        let mut c = idx;
+        for _ in 0..len {
+          sv.push_str(syms[c % syms.len()]);
+          c /= syms.len();
+        }
+        for f in [0usize, 3, 4, 5, 6] {
+          let mut v = base_val();
+          set_field(&mut v, f, &sv);
+          ctx.states += 1;
+          ctx.count("escape_neighbourhood_values");
+          c15_value(ctx, &v);
+        }
+      }
+    }
+  }
   // documents: key order permutations, nulls, missing arrays
   let docs = documents(thorough);
   for (doc, want) in &docs {
@@ -233,7 +289,16 @@ fn documents(thorough: bool) -> Vec<(String, MapVal)> {
   // per key: (raw text, effect)
   let variants: Vec<(&str, Vec<(&str, Box<dyn Fn(&mut MapVal)>)>)> = vec![
     ("version", vec![("3", Box::new(|_| {}))]),
-    ("file", vec![("\"f.js\"", Box::new(|v| v.file = Some("f.js".into()))), ("null", Box::new(|_| {})), ("<absent>", Box::new(|_| {}))]),
+    (
+      "file",
+      vec![
+        ("\"f.js\"", Box::new(|v| v.file = Some("f.js".into()))),
+        ("null", Box::new(|_| {})),
+        ("<absent>", Box::new(|_| {})),
+        // every escape form a writer may use: \uXXXX, a surrogate pair, \/ and the short escapes
+        (r#""\u0041\ud83d\ude00\/\b\f\n\r\t\"\\""#, Box::new(|v| v.file = Some("A😀/\u{8}\u{c}\n\r\t\"\\".into()))),
+      ],
+    ),
     (
       "sources",
       vec![
@@ -252,7 +317,15 @@ fn documents(thorough: bool) -> Vec<(String, MapVal)> {
         ("<absent>", Box::new(|_| {})),
       ],
     ),
-    ("names", vec![("[null,\"n\"]", Box::new(|v| v.names = vec!["".into(), "n".into()])), ("<absent>", Box::new(|_| {})), ("null", Box::new(|_| {}))]),
+    (
+      "names",
+      vec![
+        ("[null,\"n\"]", Box::new(|v| v.names = vec!["".into(), "n".into()])),
+        ("<absent>", Box::new(|_| {})),
+        ("null", Box::new(|_| {})),
+        (r#"["\u00e9\u2028","\uD83D\uDE00"]"#, Box::new(|v| v.names = vec!["é\u{2028}".into(), "😀".into()])),
+      ],
+    ),
     ("mappings", vec![("\"AAAA;AACA\"", Box::new(|v| v.mappings = "AAAA;AACA".into())), ("\"\"", Box::new(|v| v.mappings = String::new()))]),
     ("sourceRoot", vec![("\"r\"", Box::new(|v| v.root = Some("r".into()))), ("null", Box::new(|_| {})), ("<absent>", Box::new(|_| {}))]),
     ("debugId", vec![("\"d\"", Box::new(|v| v.debug_id = Some("d".into()))), ("<absent>", Box::new(|_| {}))]),
